@@ -58,6 +58,12 @@ CHECKS.update({
   note="expvar is a counter table in the engine (natively: the real expvar maps); prog_loads_total/prog_unloads_total/prog_load_errors_total (loader) and lines_total/log_count (whole program) are outside this claim"),
 })
 
+CHECKS.update({
+ "C07": dict(level="model_checking", ref="DESIGN.md 4 C07",
+  text="bounded symbolic execution of the real vm.New/ProcessLogLine/execute (Strptime, Settime, Timestamp), VM.ParseTime, the groupcache LRU memo and BaseDatum.stamp on compiled programs made of strptime/settime/plain blocks: after an arbitrary earlier line, one line with symbolic value bytes (8-digit dates under two layouts, 15-byte syslog stamps), symbolic settime operand (any int64), syslog-current-year on/off, zone none/UTC+9/UTC-3:30, symbolic wall clock; timestamp() and the stamps of data updated on the line equal the instant the property defines, a runtime error is raised iff the value does not parse, whatever was parsed before",
+  note="time.Parse is an uninterpreted function for the returned instant, with exact axioms (validated against the native function, engine/timeparse_test.go) for acceptance, year, nanosecond and is-zero-instant for layouts built from 2006 01 02 _2 15 04 05 Jan; Year/AddDate uninterpreted with native refinement of counterexamples; one listed known finding (a value parsing to the reserved zero instant reads as unset) witnessed by a concrete job"),
+})
+
 NOT_APPLICABLE = {
  "C03": "whole compiler front end on arbitrary bytes: channel-driven lexer, goyacc tables, HM unification over a pointer graph, regexp/syntax - symbolic bytes fork at every character class and reach stdlib parsers that cannot be encoded (DESIGN.md 4 C03)",
  "C17": "behaviour lives in kernel pipe/socket semantics and real goroutine interleavings; a faithful stub would re-implement net (DESIGN.md 4 C17)",
